@@ -14,78 +14,149 @@
          result = restore_savepoint_inner(..) (first action: the root swap); if result.is_err() { poison }
      retain / retain_in (Table::retain_in_bounds): RetainPanicGuard poisons when unwinding; the b-tree's
          `poisoned` out-flag (rejected entries left in the tree) poisons
-     extract_if / extract_from_if (ExtractIf::drop): close_failed() || predicate_panicked() poisons
+     extract_if / extract_from_if (ExtractIf::drop): close_failed() || predicate_panicked() poisons; since commit
+         c277127 of /repo predicate_panicked() is also true while a STEP of the iterator runs (scan, decoder, user
+         compare), so any unwind out of a step poisons, exactly like RetainPanicGuard does for retain: EPanic of
+         these two kinds = an unwind out of the call, the predicate's or not.  Before that commit an unwind that
+         was not the predicate's did not poison: `poisons_step_unwind_unguarded` (refuted:
+         unguarded_extract_unwind_refuted)
      CursorMut (latch_error / finish): a failed splice that lost reported inserts poisons
    `f_lost` is that internal out-flag / close_failed condition of the b-tree layer (not observable from
    outside; for those failures only `blocked` = poisoned || iolatch is claimed).
 
-   commit():  if poisoned { abort_inner()?; return Err(TransactionPoisoned) }  -- abort_inner_impl runs
-   check_io_errors()? before rollback_all, so with the I/O latch set the rollback stops there and the
-   error is the latched I/O error; otherwise commit_inner, whose first fallible action fails on the latch.
-   Drop: abort_inner() unless the latch is set (then only the staged roots are cleared). *)
+   Error kind ECorrupt = a LOGICAL failure caused by a corrupted read (StorageError::Corrupted from a page
+   number / depth check, a record decoder such as SerializedSavepoint::to_savepoint, a system-table type
+   check): not an I/O error, so nothing is latched; it can strike at ANY read of a call.  `corrupt_ok`
+   transcribes, per call kind, where the reads and parses stand relative to the mutations in the code:
+     KWrite     one b-tree update (Table::insert / remove / pop_*, open / create of a table, multimap calls on
+                an inline collection): the descent's reads precede the rebuild, the root is swapped last
+     KSpDelete  delete_persistent_savepoint: get_system_table_root, open_system_table, table.get(id),
+                to_savepoint (parse) ALL precede table.remove(id) and record_deleted -- atomic by ordering
+     KSavepoint persistent_savepoint: open NEXT_SAVEPOINT_TABLE, read it, store the ratcheted id counter
+                (micro step 1: an id is consumed, like a transaction id), THEN open SAVEPOINT_TABLE (a read
+                that can fail), insert the record, register it -- a failure after step 1 leaves only the
+                counter (`ratchet_prefix`)
+     KRename / KDelete   any TableError::Storage poisons (Corrupted included), wherever it strikes
+     KRestore   the checks before the root swap fail atomically; restore_savepoint_inner poisons on any error
+     KRetain / KExtract / KCursor   entry by entry: every removal / insertion is reported to the caller
+                (predicate verdict, yielded entry, cursor call) when it is made; a failure leaves the
+                reported prefix applied as complete steps, or -- if reported changes were lost / a step is
+                half-executed -- raises the b-tree's lost flag, which poisons
+     KMultimap  MultimapTable::insert / remove / remove_all: the key's collection is updated (for a subtree
+                collection: copy-on-write of the subtree, the replaced pages queued for freeing) and THEN the
+                top-level entry that points at it is rewritten (remove_all: the entry is removed, then the
+                subtree is walked to queue its pages).  The two steps are not error-atomic; a
+                PartialUpdateGuard, armed after the initial lookup (remove_all: at the start) and disarmed
+                only when the update ran to completion, poisons the transaction on ANY error or unwind in
+                between (`f_armed`; every mutation of such a call lies inside the guarded region).  Before
+                commit 90d01ff of /repo there was no guard: `poisons_unguarded`, for which the property is
+                false (theorem unguarded_multimap_refuted).
+*)
 From Coq Require Import List PArith NArith Bool.
 From RV Require Import Txn.PSet Txn.Own Txn.OwnThmP Txn.Abandon.
 Import ListNotations.
 Open Scope N_scope.
 
-Inductive errk := EIo | ELogical | EPanic.
+Inductive errk := EIo | ELogical | EPanic | ECorrupt.
 Inductive kind :=
 | KWrite       (* insert / remove / pop / get_mut / multimap insert / remove ... and table open / create *)
 | KRename | KDelete | KRestore | KRetain | KExtract | KCursor
 | KSavepoint   (* ephemeral_savepoint / persistent_savepoint *)
 | KSpDelete    (* delete_persistent_savepoint *)
-| KSetting.    (* set_durability / set_two_phase_commit / set_quick_repair *)
+| KSetting     (* set_durability / set_two_phase_commit / set_quick_repair *)
+| KMultimap.   (* MultimapTable::insert / remove / remove_all *)
 
-Record failure := mkfail { f_pos : nat; f_err : errk; f_half : option halfstep; f_lost : bool }.
+(* f_armed: a guard that poisons on any failure or unwind was armed when the call failed (PartialUpdateGuard) *)
+Record failure := mkfail { f_pos : nat; f_err : errk; f_half : option halfstep; f_lost : bool; f_armed : bool }.
 Record call := mkcall { ck : kind; micro : list op; cfail : option failure }.
 
 Record ptx := mkptx { own : st; poisoned : bool; iolatch : bool }.
 
 Definition is_io (e : errk) : bool := match e with EIo => true | _ => false end.
 Definition is_panic (e : errk) : bool := match e with EPanic => true | _ => false end.
+Definition is_corrupt (e : errk) : bool := match e with ECorrupt => true | _ => false end.
+(* StorageError: what `matches!(result, Err(TableError::Storage(_)))` sees *)
+Definition is_storage (e : errk) : bool := is_io e || is_corrupt e.
 Definition has_predicate (k : kind) : bool := match k with KRetain | KExtract => true | _ => false end.
 
 (* the failure happened after the call's first mutation *)
 Definition mutated (f : failure) : bool :=
   negb (Nat.eqb (f_pos f) 0) || match f_half f with Some _ => true | None => false end.
 
+Definition has_half (f : failure) : bool := match f_half f with Some _ => true | None => false end.
+(* calls that work entry by entry, reporting every change to the caller when it is made *)
+Definition per_entry (k : kind) : bool := match k with KRetain | KExtract | KCursor => true | _ => false end.
+(* leading micro steps that only consume an id (persistent_savepoint: the savepoint id counter) *)
+Definition ratchet_prefix (k : kind) : nat := match k with KSavepoint => 1%nat | _ => 0%nat end.
+Definition is_mm (k : kind) : bool := match k with KMultimap => true | _ => false end.
+
+(* where a corrupted read can fail a call (see header) *)
+Definition corrupt_ok (k : kind) (f : failure) : bool :=
+  match k with
+  | KWrite | KSpDelete => Nat.eqb (f_pos f) 0 && negb (has_half f)
+  | KSavepoint => Nat.leb (f_pos f) 1 && negb (has_half f)
+  | KRename | KDelete | KRestore => true
+  | KRetain | KExtract | KCursor => negb (has_half f) || f_lost f
+  | KMultimap => true
+  | KSetting => false
+  end.
+
 (* failures the model considers possible: argument / state errors (TableDoesNotExist, TableAlreadyOpen,
    TableTypeMismatch, InvalidSavepoint, ImmediateDurabilityRequired, ValueTooLarge, UnorderedKey ...) are
    detected before the first mutation; only user predicates can panic; the b-tree "lost changes" flag
-   is raised only by a storage error after a mutation *)
+   is raised only by a storage error (I/O or corruption) after a mutation; corrupted reads: `corrupt_ok` *)
 Definition fail_ok (c : call) (f : failure) : bool :=
   Nat.leb (f_pos f) (length (micro c)) &&
   match f_err f with
   | ELogical => negb (mutated f)
   | EPanic => has_predicate (ck c)
   | EIo => true
+  | ECorrupt => corrupt_ok (ck c) f
   end &&
-  (negb (f_lost f) || (is_io (f_err f) && mutated f)).
+  (negb (f_lost f) || (is_storage (f_err f) && mutated f)) &&
+  (* only multimap calls have the guard; all their mutations lie inside the guarded region *)
+  (negb (f_armed f) || is_mm (ck c)) && (negb (is_mm (ck c)) || negb (mutated f) || f_armed f).
 
 Definition poisons (k : kind) (f : failure) : bool :=
   match k with
-  | KRename | KDelete => is_io (f_err f)
+  | KRename | KDelete => is_storage (f_err f)
   | KRestore => mutated f
   | KRetain | KExtract => is_panic (f_err f) || f_lost f
   | KCursor => f_lost f
+  | KMultimap => f_armed f
   | KWrite | KSavepoint | KSpDelete | KSetting => false
   end.
+(* the code before commit c277127: an unwind out of an extract_if step that is not the predicate's is not noticed *)
+Definition poisons_step_unwind_unguarded (k : kind) (f : failure) : bool :=
+  match k with KExtract => f_lost f | _ => poisons k f end.
+(* the code before commit 90d01ff: no PartialUpdateGuard *)
+Definition poisons_unguarded (k : kind) (f : failure) : bool :=
+  match k with KMultimap => false | _ => poisons k f end.
+
+(* what a failed call leaves of itself WITHOUT having reported it as done: a half-executed step, or complete
+   micro steps of a call that is not entry-by-entry beyond the id-consuming prefix *)
+Definition staged_partial (c : call) (f : failure) : bool :=
+  has_half f || (negb (per_entry (ck c)) && negb (Nat.leb (f_pos f) (ratchet_prefix (ck c)))).
 
 (* the micro steps that ran *)
 Definition ran (c : call) : list op :=
   match cfail c with None => micro c | Some f => firstn (f_pos f) (micro c) end.
 
-Definition exec (c : call) (p : ptx) : ptx :=
+(* `ps`: which failures poison (the wrappers of the code: `poisons`) *)
+Definition exec_with (ps : kind -> failure -> bool) (c : call) (p : ptx) : ptx :=
   let t := run (ran c) (own p) in
   match cfail c with
   | None => mkptx t (poisoned p) (iolatch p)
   | Some f =>
     mkptx (match f_half f with Some h => half h t | None => t end)
-          (poisoned p || poisons (ck c) f)
+          (poisoned p || ps (ck c) f)
           (iolatch p || is_io (f_err f))
   end.
+Definition exec (c : call) (p : ptx) : ptx := exec_with poisons c p.
 
-Definition run_calls (cs : list call) (p : ptx) : ptx := fold_left (fun q c => exec c q) cs p.
+Definition run_calls_with (ps : kind -> failure -> bool) (cs : list call) (p : ptx) : ptx :=
+  fold_left (fun q c => exec_with ps c q) cs p.
+Definition run_calls (cs : list call) (p : ptx) : ptx := run_calls_with poisons cs p.
 Definition ran_all (cs : list call) : list op := flat_map ran cs.
 
 Definition start (s : st) : ptx := mkptx (begin_write s) false false.
@@ -136,10 +207,35 @@ Fixpoint calls_ok (cs : list call) (p : ptx) : Prop :=
 Definition failed_after_mutation (c : call) : bool :=
   match cfail c with Some f => mutated f | None => false end.
 
+(* some call left an unreported part of itself *)
+Definition partial_failed (c : call) : bool :=
+  match cfail c with Some f => staged_partial c f | None => false end.
+(* ... after a failure that is not a corrupted read (the statement of the first version of this model) *)
+Definition failed_after_mutation_nc (c : call) : bool :=
+  match cfail c with Some f => mutated f && negb (is_corrupt (f_err f)) | None => false end.
+
 (* ---- the flag-level part, extracted for the correspondence: (kind, failure position class, error kind,
    lost flag) -> poisoned / latched after the call; result of commit *)
-Definition flags_after (k : kind) (mut : bool) (e : errk) (lost : bool) (po io : bool) : bool * bool :=
-  let f := mkfail (if mut then 1%nat else 0%nat) e None lost in
+Definition flags_after (k : kind) (mut : bool) (e : errk) (lost armed : bool) (po io : bool) : bool * bool :=
+  let f := mkfail (if mut then 1%nat else 0%nat) e None lost armed in
   (po || poisons k f, io || is_io e).
 Definition commit_result (po io : bool) : cres :=
   if po then (if io then CIoError else CPoisoned) else if io then CIoError else COk.
+
+(* ---- corrupted reads, extracted for the correspondence: is (unreported part staged?, poisoned?) an outcome
+   the model allows for a call of kind k that failed with Err(Corrupted) in a transaction that was not
+   poisoned?  Representatives: position 0 / 1 / 2, with or without a half-executed step, lost flag or not,
+   guard armed or not. *)
+Definition dummy_half : halfstep := mkhalf [] [] (mkwv [] [] [] [] [] None []).
+Definition corrupt_cases : list failure :=
+  flat_map (fun pos => flat_map (fun h => flat_map (fun l => map (fun a => mkfail pos ECorrupt h l a) [false; true])
+                                                   [false; true])
+                                [None; Some dummy_half]) [0%nat; 1%nat; 2%nat].
+Definition dummy_micro : list op := [OAbort; OAbort].
+Definition corrupt_outcome_ok (k : kind) (staged pois : bool) : bool :=
+  existsb (fun f => let c := mkcall k dummy_micro (Some f) in
+                    fail_ok c f && Bool.eqb (staged_partial c f) staged && Bool.eqb (poisons k f) pois)
+          corrupt_cases.
+(* the same when the harness cannot tell a reported prefix from an unreported part (entry-by-entry kinds) *)
+Definition corrupt_poison_ok (k : kind) (pois : bool) : bool :=
+  corrupt_outcome_ok k false pois || corrupt_outcome_ok k true pois.
